@@ -258,11 +258,19 @@ class _Sw(object):
     self.world.close()
 
 
-def _collect_action_lists(step, flow):
-  lists = [step.get("actions") or []]
-  if step["mode"] == "packet_out" and flow is not None:
-    lists.append(flow["actions"])
-  return lists
+def _refusable(actions, port_state, packet_out):
+  """The list names an output port the switch may legitimately refuse (OFPBAC_BAD_OUT_PORT)."""
+  ok_virtual = {R.OFPP_IN_PORT, R.OFPP_FLOOD, R.OFPP_ALL, R.OFPP_CONTROLLER}
+  if packet_out:
+    ok_virtual.add(R.OFPP_TABLE)
+  for a in actions:
+    if a["a"] == "output":
+      if (a["port"] < R.OFPP_MAX and a["port"] not in port_state) or (a["port"] >= R.OFPP_MAX and a["port"] not in ok_virtual):
+        return True
+    elif a["a"] == "enqueue":
+      if a["port"] not in port_state and a["port"] != R.OFPP_IN_PORT:
+        return True
+  return False
 
 
 def _explicit_targets(lists, in_port):
@@ -595,8 +603,19 @@ def _run(case, sw, out, nt):
         flow = None
         if mode == "flow":
           wc = OFPFW_ALL if step.get("match", "all") == "all" else (OFPFW_ALL & ~OFPFW_IN_PORT)
+          end.take_sent()
           sw.send(enc_flow_mod(0, wc, in_port, actions, sw.nx()))      # OFPFC_ADD
-          flow = {"match": step.get("match", "all"), "in_port": in_port, "actions": actions}
+          if any(t == OFPT_ERROR for t, xid, body in split_messages(end.take_sent())):
+            # a switch may refuse a flow-mod whose outputs it cannot honour (OFPBAC_BAD_OUT_PORT); nothing is installed then
+            if not _refusable(actions, port_state, False):
+              _vkey(out, "flow-mod-refused", "the switch answered a flow-mod with valid actions %s with an error" % (
+                  [SHORT[a["a"]] + (":%x" % a["port"] if "port" in a else "") for a in actions],))
+              return
+            out.label("flow-mod-refused")
+            mode = "miss"
+            actions = []
+          else:
+            flow = {"match": step.get("match", "all"), "in_port": in_port, "actions": actions}
         end.take_sent()
         end.rx_frame(frame, in_port)
     except HarnessError:
@@ -607,6 +626,7 @@ def _run(case, sw, out, nt):
     emitted = end.take_emitted()
     msgs = split_messages(end.take_sent())
     pktins = []
+    refused = False
     for t, xid, body in msgs:
       if t == OFPT_PACKET_IN:
         pi = dec_packet_in(body)
@@ -616,9 +636,17 @@ def _run(case, sw, out, nt):
         pktins.append(pi)
       elif t == OFPT_ERROR:
         out.label("error-reply")
+        if step["mode"] == "packet_out" and not emitted and _refusable(actions, port_state, True):
+          refused = True                   # a packet-out with an output it cannot honour may be refused as a whole
+
+    if refused and not pktins:
+      out.label("packet-out-refused")
+      continue
 
     # ---- what should have happened
-    lists = _collect_action_lists(step, flow)
+    lists = [actions]
+    if mode == "packet_out" and flow is not None:
+      lists.append(flow["actions"])
     ingress_exists = in_port in port_state
     icfg = port_state[in_port][0] if ingress_exists else 0
     ingress_down = ingress_exists and bool((icfg & R.OFPPC_PORT_DOWN) or (port_state[in_port][1] & R.OFPPS_LINK_DOWN))
